@@ -133,7 +133,6 @@ def TraitFn.toks (cx : Ctx) : TraitFn → Toks
   | .cmp => cx.trait.path.toks ++ colon2 ++ ["cmp"]
   | .hash => cx.trait.path.toks ++ colon2 ++ ["hash"]
   | .clone => cx.trait.path.toks ++ colon2 ++ ["clone"]
-  | .default => cx.trait.path.toks ++ colon2 ++ ["default"]
   | .zeroize => cx.trait.path.toks ++ colon2 ++ ["zeroize"]
 
 /-- Paths of the calls on a whole value (`selfCall`). -/
@@ -229,6 +228,7 @@ def Expr.toks (cx : Ctx) : Expr → Toks
   | .userDiscr k => match (cx.variant k).discriminant with
     | some d => d.toks
     | none => []
+  | .defaultCall _ _ => cx.trait.path.toks ++ colon2 ++ ["default", "(", ")"]
   | .call f args => f.toks cx ++ ["("] ++ Expr.listToks cx args ++ [")"]
   | .callT f args => f.toks cx ++ ["("] ++ Expr.listToks cx args ++ [",", ")"]
   | .selfCall f args => f.selfToks cx ++ ["("] ++ Expr.listToks cx args ++ [")"]
